@@ -122,11 +122,119 @@ C03Extra ==
   /\ \A k \in DOMAIN Obs.scalars : ClauseAt("Scalar_" \o k, Near(Obs.scalars[k][1], Obs.scalars[k][2], 100), "scalar")
 
 --------------------------------------------------------------------------
+(* C05 / C06: arc lengths and field-line integrals along chains of y-connected regions *)
+Down(x, y) ==
+  LET r == RegY(y)  s1 == SegX(x) IN
+  IF y > RY0(r) THEN y - 1
+  ELSE IF LowerOf(conn, s1, r) = {} THEN -1 ELSE LastRow(CHOOSE r2 \in LowerOf(conn, s1, r) : TRUE)
+Up(x, y) == LayoutUp(conn, cfg.nx, cfg.ny, cfg.G, x, y)
+
+\* the chain of the specification (documented start) that region r belongs to in segment s1
+ChainOf(s1, r) == CHOOSE g \in YGroupsOfSeg(conn, s1) : \E k \in 1..Len(g) : g[k] = r
+ClosedX(x) == \E g \in YGroupsOfSeg(conn, SegX(x)) : IsPeriodic(conn, SegX(x), g)
+OnClosed(x, y) == IsPeriodic(conn, SegX(x), ChainOf(SegX(x), RegY(y)))
+\* upper face of cell (x, y) is the place where a closed chain wraps round (documented start of the chain)
+IsWrap(x, y) == LET g == ChainOf(SegX(x), RegY(y)) IN
+  OnClosed(x, y) /\ RegY(y) = g[Len(g)] /\ y = LastRow(RegY(y))
+\* first row of the chain that (x, y) belongs to
+ChainFirstRow(x, y) == RY0(ChainOf(SegX(x), RegY(y))[1])
+\* radial faces that are a separatrix through an X-point (xlow location of column x)
+SepFace(x) == \E X \in XPts : x = XFace(X)
+
+RelNear(a, b, N) == a # NANV /\ b # NANV /\ Abs(a - b) <= 2000000 /\ N * Abs(a - b) <= Abs(b) + 2 * N
+\* relative bound 1/N plus an absolute floor F (in quanta)
+RelNearF(a, b, N, F) == a # NANV /\ b # NANV /\ Abs(a - b) <= 2000000 /\ N * Abs(a - b) <= Abs(b) + F * N
+SumOver(S, f(_)) == LET RECURSIVE Sm(_)
+                        Sm(U) == IF U = {} THEN 0 ELSE LET e == CHOOSE e \in U : TRUE IN f(e) + Sm(U \ {e})
+                    IN Sm(S)
+ClosedRows(x) == {y \in YS : OnClosed(x, y)}
+
+HyTol == 100        \* 1 per cent of the cell's arc (chord error of the fine contour; C05 states O(1/Nfine^2))
+\* plus an absolute allowance for locating a grid point between two fine-contour points: O(spacing^2 * curvature),
+\* 2e-4 m at Nfine = 100 (quantum 1e-7 m), scaling with 1/Nfine^2
+LenFloor == (2000 * 10000) \div (Obs.nfine * Obs.nfine)
+ArcNear(a, b) == RelNearF(a, b, HyTol, LenFloor)
+C05Clauses ==
+  LET A == Obs.arc  H == Obs.hydy  PD == Obs.pd IN
+  /\ \A loc \in {"centre", "ylow", "xlow"} :
+       ClauseAt("HyPositive", \A x \in XS : \A y \in YS : H[loc][x + 1][y + 1] > 0 /\ H[loc][x + 1][y + 1] # NANV, loc)
+  /\ ClauseAt("HyCentreIsArc", \A x \in XS : \A y \in YS :
+        ArcNear(H.centre[x + 1][y + 1], A.Alo_c[x + 1][y + 1] + A.Ahi_c[x + 1][y + 1]), "centre")
+  /\ ClauseAt("HyYlowIsArc", \A x \in XS : \A y \in YS :
+        Down(x, y) # -1 => ArcNear(H.ylow[x + 1][y + 1], A.Alo_c[x + 1][y + 1] + A.Ahi_c[x + 1][Down(x, y) + 1]), "ylow")
+  /\ ClauseAt("HyXlowIsArc", \A x \in XS : \A y \in YS :
+        (SepFace(x) /\ XRow(y)) \/ ArcNear(H.xlow[x + 1][y + 1], A.Alo_l[x + 1][y + 1] + A.Ahi_l[x + 1][y + 1]), "xlow")
+  \* poloidal_distance: increments are the arcs, hence strictly increasing
+  /\ ClauseAt("PDIncrementsAreArcs", \A x \in XS : \A y \in YS :
+        /\ ArcNear(PD.centre[x + 1][y + 1] - PD.ylow[x + 1][y + 1], A.Alo_c[x + 1][y + 1])
+        /\ ArcNear(PD.hi_c[x + 1][y + 1] - PD.centre[x + 1][y + 1], A.Ahi_c[x + 1][y + 1]), "centre")
+  /\ ClauseAt("PDIncrementsAreArcs", \A x \in XS : \A y \in YS :
+        (SepFace(x) /\ XRow(y)) \/
+        /\ ArcNear(PD.xlow[x + 1][y + 1] - PD.corner[x + 1][y + 1], A.Alo_l[x + 1][y + 1])
+        /\ ArcNear(PD.hi_l[x + 1][y + 1] - PD.xlow[x + 1][y + 1], A.Ahi_l[x + 1][y + 1]), "xlow")
+  /\ ClauseAt("PDMonotone", \A x \in XS : \A y \in YS :
+        /\ PD.ylow[x + 1][y + 1] < PD.centre[x + 1][y + 1] /\ PD.centre[x + 1][y + 1] < PD.hi_c[x + 1][y + 1]
+        /\ PD.corner[x + 1][y + 1] < PD.xlow[x + 1][y + 1] /\ PD.xlow[x + 1][y + 1] < PD.hi_l[x + 1][y + 1], "all")
+  \* continuous across every join except where a closed chain wraps round
+  /\ ClauseAt("PDContinuousAtJoins", \A x \in XS : \A y \in YS :
+        (y = LastRow(RegY(y)) /\ Up(x, y) # -1 /\ ~IsWrap(x, y)) =>
+           /\ Near(PD.hi_c[x + 1][y + 1], PD.ylow[x + 1][Up(x, y) + 1], 20)
+           /\ Near(PD.hi_l[x + 1][y + 1], PD.corner[x + 1][Up(x, y) + 1], 20), "all")
+  \* measured from the lower target (open chains) / from the documented start of the closed chain
+  /\ ClauseAt("PDStartsAtLowerTarget", \A x \in XS : \A y \in YS :
+        (~OnClosed(x, y) /\ y = ChainFirstRow(x, y) + cfg.G) =>
+           Near(PD.ylow[x + 1][y + 1], 0, 20) /\ Near(PD.corner[x + 1][y + 1], 0, 20), "open")
+  /\ ClauseAt("PDStartsAtChainStart", \A x \in XS : \A y \in YS :
+        (OnClosed(x, y) /\ y = ChainFirstRow(x, y)) =>
+           Near(PD.ylow[x + 1][y + 1], 0, 20) /\ Near(PD.corner[x + 1][y + 1], 0, 20), "closed")
+  /\ ClauseAt("TotalIsCircumference", \A x \in XS :
+        ClosedX(x) => RelNear(Obs.total_pd[x + 1], SumOver(ClosedRows(x), LAMBDA y : A.Alo_c[x + 1][y + 1] + A.Ahi_c[x + 1][y + 1]), HyTol), "closed")
+  /\ ClauseAt("TotalNaNOnlyOutsideCore", \A x \in XS : (Obs.total_pd[x + 1] = NANV) = ~ClosedX(x), "all")
+
+ZTol == 50          \* 2 per cent of the cell's integral (trapezoid rule on the fine contour)
+ZTolX == 10         \* 10 per cent in the rows next to an X-point, where the integrand Bt/(R|Bp|) rises steeply
+ZNear(a, b, y) == RelNear(a, b, IF XRow(y) THEN ZTolX ELSE ZTol)
+C06Clauses ==
+  LET I == Obs.int  Z == Obs.zs IN
+  /\ PairClauses
+  /\ ClauseAt("ZShiftIncrementsAreIntegrals", Obs.has_bt = 0 \/ \A x \in XS : \A y \in YS :
+        /\ ZNear(Z.centre[x + 1][y + 1] - Z.ylow[x + 1][y + 1], I.Ilo_c[x + 1][y + 1], y)
+        /\ ZNear(Z.hi_c[x + 1][y + 1] - Z.centre[x + 1][y + 1], I.Ihi_c[x + 1][y + 1], y), "centre")
+  \* on the separatrix surface itself the integrand is singular at the X-point: not demanded there
+  /\ ClauseAt("ZShiftIncrementsAreIntegrals", Obs.has_bt = 0 \/ \A x \in XS : \A y \in YS :
+        SepFace(x) \/
+        /\ ZNear(Z.xlow[x + 1][y + 1] - Z.corner[x + 1][y + 1], I.Ilo_l[x + 1][y + 1], y)
+        /\ ZNear(Z.hi_l[x + 1][y + 1] - Z.xlow[x + 1][y + 1], I.Ihi_l[x + 1][y + 1], y), "xlow")
+  /\ ClauseAt("ZShiftContinuousExceptStart", \A x \in XS : \A y \in YS :
+        (y = LastRow(RegY(y)) /\ Up(x, y) # -1 /\ ~IsWrap(x, y)) =>
+           /\ Near(Z.hi_c[x + 1][y + 1], Z.ylow[x + 1][Up(x, y) + 1], 20)
+           /\ Near(Z.hi_l[x + 1][y + 1], Z.corner[x + 1][Up(x, y) + 1], 20), "all")
+  /\ ClauseAt("ZShiftStartsAtChainStart", \A x \in XS : \A y \in YS :
+        ((~OnClosed(x, y) /\ y = ChainFirstRow(x, y) + cfg.G) \/ (OnClosed(x, y) /\ y = ChainFirstRow(x, y))) =>
+           Near(Z.ylow[x + 1][y + 1], 0, 20) /\ Near(Z.corner[x + 1][y + 1], 0, 20), "all")
+  \* the single jump of a closed chain is ShiftAngle and sits at the chain start
+  /\ ClauseAt("JumpIsShiftAngle", \A x \in XS : \A y \in YS :
+        IsWrap(x, y) => Near(Z.hi_c[x + 1][y + 1] - Z.ylow[x + 1][Up(x, y) + 1], Obs.shiftangle[x + 1], 20), "closed")
+  /\ ClauseAt("ShiftAngleIsTotal", Obs.has_bt = 0 \/ \A x \in XS :
+        ClosedX(x) => RelNear(Obs.shiftangle[x + 1], SumOver(ClosedRows(x), LAMBDA y : I.Ilo_c[x + 1][y + 1] + I.Ihi_c[x + 1][y + 1]), ZTol), "closed")
+  /\ ClauseAt("ShiftAngleNaNOnlyOnOpen", \A x \in XS : (Obs.shiftangle[x + 1] = NANV) = ~ClosedX(x), "all")
+  /\ ClauseAt("ShiftAngleIsTwoPiQ", "circ_q2pi" \notin DOMAIN Obs \/ Obs.circ_q2pi = NANV
+                                     \/ \A x \in XS : RelNear(Obs.shiftangle[x + 1], Obs.circ_q2pi, 200), "circular")
+  \* ShiftTorsion is the centred x-derivative of dphidy: (f_xlow[x+1] - f_xlow[x]) / dx at cell centres
+  /\ ClauseAt("ShiftTorsionIsDDX", \A x \in XS : \A y \in YS :
+        Near(Obs.ddx.st_times_dx[x + 1][y + 1], Obs.ddx.f_xhi[x + 1][y + 1] - Obs.ddx.f_xlow[x + 1][y + 1], 100), "centre")
+  \* chi is defined exactly on closed surfaces
+  /\ \A loc \in {"centre", "xlow", "ylow"} :
+       ClauseAt("ChiDomain", \A x \in XS : \A y \in YS : (Obs.chi_nan[loc][x + 1][y + 1] = 1) = ~OnClosed(x, y), loc)
+
+--------------------------------------------------------------------------
 Observe ==
   /\ stage = "file"
   /\ CASE Obs.prop = "C01" -> C01Clauses
        [] Obs.prop = "C02" -> PairClauses
        [] Obs.prop = "C03" -> PairClauses /\ C03Extra
+       [] Obs.prop = "C05" -> C05Clauses
+       [] Obs.prop = "C06" -> C06Clauses
        [] OTHER -> TRUE
   /\ stage' = "observed"
   /\ UNCHANGED <<cfg, conn, rects, ygroups, ints, tid>>
